@@ -343,6 +343,16 @@ class Oscar(BaseStorer):
         """
         return self.impact_parameters_
 
+    def __event_footer(self, event: int, position: int) -> str:
+        """
+        End line of the event with label :code:`event`, renumbered to the
+        position the event has in the written file (events in a file are
+        numbered consecutively from zero).
+        """
+        footer = self.event_end_lines_[event].split(" ")
+        footer[2] = str(position)
+        return " ".join(footer)
+
     def print_particle_lists_to_file(self, output_file: str) -> None:
         """
         Prints the current Oscar data to an output file specified by
@@ -378,7 +388,7 @@ class Oscar(BaseStorer):
             "xsecfac": "%g",
             "proc_id_origin": "%d",
             "proc_type_origin": "%d",
-            "time_last_coll": "%g",
+            "t_last_coll": "%g",
             "pdg_mother1": "%d",
             "pdg_mother2": "%d",
             "baryon_number": "%d",
@@ -420,18 +430,22 @@ class Oscar(BaseStorer):
                 raise ValueError("The number of output per event is empty.")
             if self.num_events_ is None:
                 raise ValueError("The number of events is empty.")
-            if self.num_events_ == 1 and self.particle_list_ == [[]]:
+            if self.num_events_ == 0 or (
+                self.num_events_ == 1 and self.particle_list_ == [[]]
+            ):
                 warnings.warn("The number of events is zero.")
+            if self.num_events_ == 0:
+                pass
             elif self.num_events_ > 1:
                 for i in range(self.num_events_):
                     event = self.num_output_per_event_[i, 0]
                     num_out = self.num_output_per_event_[i, 1]
                     particle_output = np.asarray(list_of_particles[i])
                     f_out.write(
-                        "# event " + str(event) + " out " + str(num_out) + "\n"
+                        "# event " + str(i) + " out " + str(num_out) + "\n"
                     )
                     if len(particle_output) == 0:
-                        f_out.write(self.event_end_lines_[event])
+                        f_out.write(self.__event_footer(event, i))
                         continue
                     elif (
                         i == 0
@@ -473,16 +487,14 @@ class Oscar(BaseStorer):
                             newline="\n",
                             fmt=format_custom,
                         )
-                    f_out.write(self.event_end_lines_[event])
+                    f_out.write(self.__event_footer(event, i))
             else:
-                event = 0
+                event = self.num_output_per_event_[0][0]
                 num_out = self.num_output_per_event_[0][1]
                 particle_output = np.asarray(list_of_particles)
-                f_out.write(
-                    "# event " + str(event) + " out " + str(num_out) + "\n"
-                )
+                f_out.write("# event 0 out " + str(num_out) + "\n")
                 if len(particle_output) == 0:
-                    f_out.write(self.event_end_lines_[event])
+                    f_out.write(self.__event_footer(event, 0))
                     f_out.close()
                     return
                 elif len(particle_output[0]) > 20 and (
@@ -521,5 +533,5 @@ class Oscar(BaseStorer):
                         newline="\n",
                         fmt=format_custom,
                     )
-                f_out.write(self.event_end_lines_[event])
+                f_out.write(self.__event_footer(event, 0))
         f_out.close()
